@@ -19,4 +19,5 @@ def rules(ctx, tier):
         lambda: config.rule_segamb(ctx),
         lambda: memo.rule_key(ctx),
         lambda: memo.rule_wrap(ctx),
+        lambda: memo.rule_purememo(ctx),
     ]
